@@ -47,6 +47,8 @@ class Contract(object):
         self.log_calls = False       # call sites append (name, args, result) to the ghost call log
         self.force_modular = False   # external stub: used through its summary even when everything else is inlined
         self.call_cases = {}         # (callee qualname, requires name) -> {label: guard(f of the caller)}
+        self.native_incomplete = False   # the native pre-state lacks framework objects the real code needs (flask, streams):
+                                         # an exception of the real code under a pseudo-random probe proves nothing
 
     # --- DSL ---------------------------------------------------------------
     def pre(self, builder):
